@@ -116,14 +116,39 @@ def validate(tree, arch: S.Arch, wl: S.WL, *, max_fused_loops=float("inf"), max_
                 if u > fanouts.get(key, 1):
                     problems.append(f"{e}: spatial loops use {u} instances of {key} > fanout {fanouts.get(key, 1)}")
         if loop_bounds:
+            # loop_bounds: list of (component, dim, set of rank variables, operator, value);
+            # operator in ==, <=, <, >=, > optionally prefixed by "product"
+            import operator as _op
+            ops = {"==": _op.eq, "<=": _op.le, "<": _op.lt, ">=": _op.ge, ">": _op.gt}
             cur = dict(bounds)
+            sp = {}
             for n in p:
                 if n[0] in ("T", "P"):
                     it = cur[n[1]] // n[2]
                     cur[n[1]] = n[2]
-                    for (kind, comp, dim, pred) in loop_bounds:
-                        if n[0] == "P" and kind == "spatial" and (n[3], n[4]) == (comp, dim) and not pred(n[1], it):
-                            problems.append(f"{e}: loop_bounds constraint of {comp}.{dim} violated by {n}")
+                    if n[0] == "P":
+                        sp.setdefault((n[3], n[4]), []).append((n[1], it))
+            for (comp, dim, rvset, oper, value) in loop_bounds:
+                if isinstance(rvset, str):  # selector resolved against this Einsum's rank variables
+                    if rvset == "ALL":
+                        rvset = set(rvs)
+                    elif rvset.startswith("NOT:"):
+                        rvset = set(rvs) - {rvset[4:]}
+                    elif rvset.startswith("ONLY:"):
+                        rvset = {rvset[5:]} & set(rvs)
+                mine =[(v, it) for v, it in sp.get((comp, dim), []) if v in rvset]
+                if not mine:
+                    continue
+                if oper.startswith("product"):
+                    prod = 1
+                    for _, it in mine:
+                        prod *= it
+                    if not ops[oper[len("product"):]](prod, value):
+                        problems.append(f"{e}: loop_bounds {sorted(rvset)} {oper} {value} of {comp}.{dim} violated: product {prod}")
+                else:
+                    for v, it in mine:
+                        if not ops[oper](it, value):
+                            problems.append(f"{e}: loop_bounds {sorted(rvset)} {oper} {value} of {comp}.{dim} violated: {v} has {it} iterations")
     # capacity
     if not any(n[0] == "P" for p in ps for n in p):
         peak = X.peak_occupancy(tree, arch, wl, persistent=persistent)
